@@ -1,7 +1,7 @@
 /-
   C13 — Parsing ignores meaningless layout and reports every bad file as a parsing error.   (PARTIAL by design)
 
-  Property theorems only (helper lemmas: Lemmas/Layout.lean, Lemmas/NumberedLines.lean).
+  Property theorems only (helper lemmas: Lemmas/Layout.lean, Lemmas/NumberedLines.lean, Lemmas/NumberedScale.lean, Lemmas/PreExpand.lean).
 
   What is proved here, for ALL piece lists / line lists / configurations (no bound):
     * Colang 2.x: the token stream that the lexer's layout rules + `lark.indenter.Indenter` hand to the LALR
@@ -26,6 +26,7 @@
 -/
 import NemoVerif.Lemmas.Layout
 import NemoVerif.Lemmas.NumberedLines
+import NemoVerif.Lemmas.NumberedScale
 import NemoVerif.Lemmas.PreExpand
 import NemoVerif.Models.ErrWrap
 
@@ -190,11 +191,33 @@ theorem numbered_lines_trailing_opener_witness :
     (numbered [[' ', ' ', '"', 'a', ' ', ' '], [' ', ' ', 'b', '"']]).toOption.map (List.map Rec.indentation) = some [4] := by
   decide
 
-/-
-  Not proved for 1.0 (searched only): scaling — `indentation` of ordinary records scales with the leading spaces
-  (`lead`), but the multi-line-string record's `multiline_indentation` also counts trailing blanks, and what the
-  1 900-line parser does with the numbers (it only compares them) is outside the model.
--/
+open NemoVerif.NumberedLines in
+/-- Colang 1.0, indentation × k at the level of `get_numbered_lines` — the exact statement that is true of the code: for EVERY factor
+    `k` (even 0) and every line list, scaling the leading spaces of every line multiplies every record's `indentation` by `k` and changes
+    nothing else (texts, comments, number of records, the `IndexError` / `TypeError` raised), PROVIDED every line that could open a
+    multi-line string is *tight* (`openerTight`: only spaces in front, nothing behind the text).
+    Full statement (without the hypothesis) is FALSE of the code: `multiline_indentation = len(raw) - len(stripped)` also counts
+    trailing blanks and leading tabs, which do not scale — see `numbered_lines_scale_as_is_counterexample`.
+    What the 1 900-line parser does with the numbers (it compares them: `>`, `<`, `==` between records, `> 0`) is outside the model. -/
+theorem numbered_lines_scale_partial (k : Nat) (ls : List Str) (h : ∀ l ∈ ls, openerTight l = true) :
+    numbered (ls.map (scaleLine k)) = (numbered ls).map (List.map (scaleRec k)) :=
+  numbered_scale k ls h
+
+open NemoVerif.NumberedLines in
+/-- non-vacuity: a two-line string whose first line is tight (`  "a` / `  b"`), scaled by 3: indentation 2 ↦ 6. -/
+example : (∀ l ∈ [[' ', ' ', '"', 'a'], [' ', ' ', 'b', '"']], openerTight l = true) ∧
+    (numbered ([[' ', ' ', '"', 'a'], [' ', ' ', 'b', '"']].map (scaleLine 3))).toOption.map (List.map Rec.indentation) = some [6] := by
+  decide
+
+open NemoVerif.NumberedLines in
+/-- kernel-checked counterexample (finite fact) to the statement without `openerTight`: `  "a␠␠` / `  b"` has indentation 4
+    (2 leading + 2 trailing blanks); scaled by 2 the code gives 6, the scaled record would need 8.  (Replayed on the real
+    `get_numbered_lines` by the corpus case `v1_scale_opener_trailing`; the flows are the same - the 1.0 parser only compares.) -/
+theorem numbered_lines_scale_as_is_counterexample :
+    (numbered [[' ', ' ', '"', 'a', ' ', ' '], [' ', ' ', 'b', '"']]).toOption.map (List.map Rec.indentation) = some [4] ∧
+    (numbered ([[' ', ' ', '"', 'a', ' ', ' '], [' ', ' ', 'b', '"']].map (scaleLine 2))).toOption.map (List.map Rec.indentation) = some [6] ∧
+    ((numbered [[' ', ' ', '"', 'a', ' ', ' '], [' ', ' ', 'b', '"']]).map (List.map (scaleRec 2))).toOption.map (List.map Rec.indentation) = some [8] := by
+  decide
 
 /-! ## Colang 2.x: the line-based pre-parsing expansion of `...` (runs before the lexer) -/
 
@@ -247,6 +270,24 @@ theorem errwrap_total (e : Exc) (he : e.isException = true) (version path : Stri
       "Unsupported colang version " ++ version ++ " for file: ", "", by simp⟩
   · exact ⟨"Error while parsing Colang file: " ++ path ++ "\n" ++ formatTotal e lines, by simp [hv, he, format],
       "Error while parsing Colang file: ", "\n" ++ formatTotal e lines, by simp [String.append_assoc]⟩
+
+/-- Generated-data fact (rebuilt on every run from the static scan of the two parsers' `raise` / `assert` statements and of lark's exception
+    classes): every class that a raise site names derives from `Exception` - none can slip past the loader's `except Exception`.
+    A new raise site with a `BaseException`-only class breaks this obligation. -/
+theorem raise_sites_are_exceptions : ∀ s ∈ Generated.C13Raise.sites, s.isException = true := by
+  decide
+
+/-- `errwrap_total` instantiated at every raise site of the two parsers: whichever site fires, with whatever `line` / `column` attributes
+    and text, on whatever file content, the loader (with the repaired formatter) raises `ColangParsingError` naming the file. -/
+theorem errwrap_total_raise_sites (s : Generated.C13Raise.Site) (hs : s ∈ Generated.C13Raise.sites) (line column : Attr) (str : String)
+    (version path : String) (lines : List String) :
+    ∃ msg, wrap true (some (excOfSite s line column str)) version path lines = .raised cpe msg ∧ ∃ a b, msg = a ++ path ++ b :=
+  errwrap_total (excOfSite s line column str) (raise_sites_are_exceptions s hs) version path lines
+
+/-- non-vacuity: the scan found the 1.0 parser's decorated `Exception` and lark's `UnexpectedToken`. -/
+example : (⟨"nemoguardrails/colang/v1_0/lang/colang_parser.py", "ColangParser.parse", "raise", "Exception", true, false⟩ : Generated.C13Raise.Site) ∈ Generated.C13Raise.sites ∧
+    (⟨"<lark.exceptions>", "", "engine", "UnexpectedToken", true, false⟩ : Generated.C13Raise.Site) ∈ Generated.C13Raise.sites := by
+  decide
 
 /-- The pinned formatter raises instead (finite witness: a `DedentError` has no `line`). -/
 theorem errwrap_as_is_counterexample :
